@@ -506,7 +506,7 @@ pub fn check(tier: &str, started: Instant) -> i32 {
         }
         violations += 1;
         let case: Case = serde_json::from_value(f.case.clone()).expect("case");
-        let (mcase, evals, minimised) = if minimise_left > 0 && started.elapsed().as_secs() < min_deadline {
+        let (mcase, evals, minimised) = if minimise_left > 0 && std::env::var("VERIF_NO_MINIMISE").is_err() && started.elapsed().as_secs() < min_deadline {
             minimise_left -= 1;
             let (m, used) = minimise(&case, &f.signature, 120, &scratch);
             if reproduces(&m, &f.signature, &scratch).is_some() {
